@@ -220,6 +220,31 @@ func streamC01(w *W, rng *rand.Rand, tier string) {
 	} else {
 		rec(nil, 4, func() bool { return rng.Intn(16) == 0 })
 	}
+	// arbitrary (possibly invalid) polygons: a hole that crosses or leaves the exterior,
+	// every lattice and half-lattice point
+	npairs := 1500
+	if tier == "thorough" {
+		npairs = 30000
+	}
+	smallRing := func() []ipt {
+		k := 3 + rng.Intn(2)
+		r := make([]ipt, k)
+		for i := range r {
+			r[i] = ipt{2 * rng.Int63n(4), 2 * rng.Int63n(4)}
+		}
+		return r
+	}
+	for it := 0; it < npairs; it++ {
+		rings := [][]ipt{smallRing(), smallRing()}
+		if rng.Intn(4) == 0 {
+			rings = append(rings, smallRing())
+		}
+		for x := int64(0); x <= 6; x++ {
+			for y := int64(0); y <= 6; y++ {
+				c01Poly(w, rings, x, y, 1, none)
+			}
+		}
+	}
 	// random rings (any vertex sequence), polygons with holes, all index configurations
 	n := 400
 	if tier == "thorough" {
